@@ -30,7 +30,7 @@ RULE = ("case = {kind: pair|triple|expr|anchor, unit expression strings, values 
         "table), all triples inside each dimension class in every ordering, all 26x140 "
         "prefix+unit spellings alone and after looking up every proper suffix of the spelling that is itself a "
         "unit. Random: Hypothesis draws a 192-byte string that is decoded (two bytes per decision) into expression trees (atoms = library units with optional prefix; * / "
-        "**k k in +-1..3; roots built so that dimensions stay integral; number factors incl. exponent literals), "
+        "**k k in {+-1,+-2,+-3,4}; roots built so that dimensions stay integral; number factors incl. exponent literals), "
         "partners of the same dimension by respelling every atom inside its dimension class, values from "
         "{0,+-1,+-1e-30,+-1e30,offsets} and +-d.ddd*10**(-6..5), and warm lists from hot prefixed atoms, suffix readings of the "
         "case's own tokens and the case's own sub-expressions. Non-trivial = a compatible pair/triple with factor "
